@@ -75,13 +75,24 @@ FILES['nested_include_via_I'] = {'inputs': {'main.prophy': '#include "sub/inner.
 FILES['isar_cross_enum'] = {'inputs': {'m.xml': '''<xml>
 <constant name="KK" value="EA_X + EB_Y + EC_Z"/>
 <enum name="EM"><enum-member name="EM_A" value="EB_Y + EC_Z"/><enum-member name="EM_B" value="EA_X * 2 + ED_W"/></enum>
-<struct name="S"><member name="a" type="u8"><dimension size="EC_Z"/></member><member name="b" type="u16"><dimension size="ED_W"/></member><member name="m" type="EM"/></struct>
+<typedef name="TS" type="S"/>
+<struct name="S"><member name="a" type="u8"><dimension size="EC_Z"/></member><member name="b" type="u16"><dimension size="ED_W"/></member><member name="m" type="EM"/><member name="c" type="u8"><dimension size="EA_X" size2="EB_Y"/></member><member name="d" type="u8"><dimension isVariableSize="true" size="EC_Z" size2="ED_W"/></member></struct>
+<typedef name="TS2" type="S2"/>
+<struct name="S2"><member name="c" type="u8"><dimension size="EP_X" size2="EQ_Y"/></member><member name="d" type="u16"><dimension isVariableSize="true" size="ER_Z" size2="EP_X"/></member></struct>
+<enum name="EP"><enum-member name="EP_X" value="2"/></enum>
+<enum name="EQ"><enum-member name="EQ_Y" value="3"/></enum>
+<enum name="ER"><enum-member name="ER_Z" value="2"/></enum>
 <enum name="EA"><enum-member name="EA_X" value="1"/></enum>
 <enum name="EB"><enum-member name="EB_Y" value="2"/></enum>
 <enum name="EC"><enum-member name="EC_Z" value="3"/></enum>
 <enum name="ED"><enum-member name="ED_W" value="4"/></enum>
 </xml>
 '''}, 'mode': 'isar', 'extra': {}}
+# two inputs that spell an array size alike while the constant in it differs: nothing computed for one may serve the other
+FILES['isar_same_expression'] = {'inputs': {
+    'first.xml': '<xml><constant name="BLOCK" value="2"/><struct name="A"><member name="x" type="u8"><dimension size="BLOCK*2"/></member><member name="t" type="u32"/></struct></xml>\n',
+    'second.xml': '<xml><constant name="BLOCK" value="3"/><struct name="B"><member name="y" type="u8"><dimension size="BLOCK*2"/></member><member name="t" type="u32"/></struct></xml>\n'},
+    'mode': 'isar', 'extra': {}}
 GENS = ['--python_out', '--cpp_out', '--cpp_full_out', '--prophy_out']
 
 
